@@ -232,6 +232,15 @@ func v6Bases(thorough bool) []named {
 		if strings.HasPrefix(m.Name, "max-length/") {
 			continue // 65 kB single values belong to the extremes (c)
 		}
+		if !thorough && strings.HasPrefix(m.Name, "relay-chain/") {
+			// quick tier: depths 0..3 with no / all ids, depth 8 with all ids; the thorough tier takes every chain
+			var d, k int
+			var mask uint32
+			fmt.Sscanf(m.Name, "relay-chain/depth%d/inner%d/ids%x", &d, &k, &mask)
+			if !((d <= 3 && (mask == 0 || mask == 0xffffffff)) || (d == 8 && mask == 0xffffffff && k <= 2)) {
+				continue
+			}
+		}
 		enc("v6/message("+m.Name+")", m.Build())
 	}
 	return append(out, v6Special()...)
@@ -246,7 +255,11 @@ func runCorpus(r *runner, ord *int64) {
 	// DHCPv6 messages
 	v6 := v6Bases(r.c.Thorough())
 	for _, b := range v6 {
-		jobs = append(jobs, job{epV6, b.name, b.b, v6LenFields(b.b), ""})
+		only := ""
+		if strings.Contains(b.name, "(long/all-once)") || strings.Contains(b.name, "(long/reversed)") || strings.Contains(b.name, "(long/each-doubled)") {
+			only = "truncation" // every option of these lists is perturbed on its own elsewhere
+		}
+		jobs = append(jobs, job{epV6, b.name, b.b, v6LenFields(b.b), only})
 		d := epV6Msg
 		if len(b.b) > 0 && (b.b[0] == 12 || b.b[0] == 13) {
 			d = epV6Relay
